@@ -412,3 +412,64 @@ pub fn factor_pair(v: usize) -> (usize, usize) {
     }
     best
 }
+
+/// A terminating counted loop (n rounds, one jump each) with an optional ♡ return
+/// after it; used where programs must terminate (C03).
+pub fn small_loop(rng: &mut Rng, v: &mut Vec<Cmd>) {
+    let heart = rng.range(2, 12) as u8;
+    let n = rng.usize(1, 6);
+    let junk = rng.usize(4, 8);
+    let ch = rng.usize(33, 126);
+    let pos = rng.usize(0, v.len());
+    let mut ins = vec![
+        Cmd::new(5, 1, 3, RArea::Nil),
+        Cmd::new(0, n, 1, RArea::Nil),
+        Cmd::new(0, 1, 1, RArea::Leaf(heart)),
+        Cmd::new(3, 1, junk, RArea::Nil),
+        Cmd::new(1, 2, 3, RArea::Nil),
+        Cmd::new(0, 1, ch, RArea::Nil),
+        Cmd::new(1, 1, 1, RArea::Nil),
+        Cmd::new(5, 1, 3, RArea::Nil),
+        Cmd::new(
+            0,
+            1,
+            1,
+            RArea::Node(0, Box::new(RArea::Nil), Box::new(RArea::Node(0, Box::new(RArea::Nil), Box::new(RArea::Leaf(heart))))),
+        ),
+    ];
+    if rng.chance(60) {
+        if rng.chance(60) {
+            // input is needed here: a level-2 pre-execution stops with a pending jump source
+            ins.push(Cmd::new(5, 1, 0, RArea::Nil));
+            ins.push(Cmd::new(5, 1, 3, RArea::Nil));
+        }
+        // after the loop: go back to the last jump source while the top is small
+        let k = rng.usize(0, 5);
+        ins.push(Cmd::new(0, 1, k, RArea::Nil));
+        let t = rng.below(2) as u8;
+        ins.push(Cmd::new(1, 1, 3, RArea::Node(t, Box::new(RArea::Leaf(13)), Box::new(RArea::Nil))));
+    }
+    for (i, c) in ins.into_iter().enumerate() {
+        v.insert((pos + i).min(v.len()), c);
+    }
+}
+
+/// The bare counted loop (n rounds) appended to `v`; leaves [0] on stack 3 and a pending jump source.
+pub fn small_loop_core(rng: &mut Rng, v: &mut Vec<Cmd>, n: usize) {
+    let heart = rng.range(2, 12) as u8;
+    let junk = rng.usize(4, 8);
+    let ch = rng.usize(33, 126);
+    v.push(Cmd::new(0, n, 1, RArea::Nil));
+    v.push(Cmd::new(0, 1, 1, RArea::Leaf(heart)));
+    v.push(Cmd::new(3, 1, junk, RArea::Nil));
+    v.push(Cmd::new(1, 2, 3, RArea::Nil));
+    v.push(Cmd::new(0, 1, ch, RArea::Nil));
+    v.push(Cmd::new(1, 1, 1, RArea::Nil));
+    v.push(Cmd::new(5, 1, 3, RArea::Nil));
+    v.push(Cmd::new(
+        0,
+        1,
+        1,
+        RArea::Node(0, Box::new(RArea::Nil), Box::new(RArea::Node(0, Box::new(RArea::Nil), Box::new(RArea::Leaf(heart))))),
+    ));
+}
